@@ -125,6 +125,10 @@ func (m *Machine) decimal(x *sym.Term, signed bool) []*sym.Term {
 		}
 		return m.strBytes(Str{S: s})
 	}
+	if m.lenientFmt {
+		// totality harnesses never look at the text: no fork per digit count and sign
+		return m.strBytes(Str{S: "1"})
+	}
 	x64 := c.Resize(x, 64, signed)
 	neg := false
 	mag := x64
